@@ -7,6 +7,9 @@ CHECKS = {
  'C01': dict(tech=T + '; per-kernel obligations from an arbitrary cursor state, contracts for SkipWS/SkipComment',
    text='Each lexer kernel of the real ChaiScript_Parser is executed symbolically from an arbitrary valid cursor over every buffer of length 0..N: no out-of-bounds access, cursor inside [begin,end], only eval_error leaves, rejected matches restore the cursor, accepted matches advance (termination measure); the escape decoder never reaches std::terminate. Compositional: callers use contract stubs whose contracts are asserted on the real callee.',
    note='claims are per unit and per N bytes behind the cursor, not per whole file; grammar-level interaction through m_match_stack is outside; clang-14 -O1 lowering; eval_error construction cut; std::string via SSO-only model'),
+ 'C04': dict(tech=T + ' (Dispatch_Engine::get_object, QuickFlatMap lookups) from arbitrary scope stacks and every cached-hint shape',
+   text='One lookup step of the real get_object from an arbitrary small scope stack (1-3 scopes, 0-3 entries, symbolic names) under every kind of cached hint (none, global/function, every local depth/slot incl. out-of-range): result is the innermost binding, no out-of-bounds access; QuickFlatMap::count/find/find-with-hint agree with a linear reference. The whole-program statement (caches invisible) is the induction over this step.',
+   note='global/function tail is a stub; names are 1-2 bytes; hint fields are enumerated concretely (shapes), names/query symbolic; count() inside get_object is a contract stub proved on the real code by L2'),
  'C05': dict(tech=T + ' for every Boxed_Number::go<L,R>; leaf mul/div/FP operations as uninterpreted functions',
    text='For every enumerated type pair the real go<L,R> is executed symbolically for all operand bit patterns, all 33 operator codes and both mutabilities; the solver shows result type, value, in-place update, exception class and absence of trapping divisions agree with the C++ expression on the same types. Bounded by the enumerated instantiations, not by values.',
    note='mul/div/rem and floating-point leaf operations are uninterpreted (same symbol on both sides); const_var<T> and exception constructors are stubs'),
